@@ -55,6 +55,17 @@ ZonedIn(y) == {DT(D(y, md[1], md[2]), OfSod(sod, 0, zn)) : md \in SwitchDays(y),
 ZonedReadings == UNION {ZonedIn(y) : y \in ZoneYears}
 ZonedPairs == {[kind |-> "dtpair", a |-> a, b |-> DT(a.date, r)] : a \in ZonedReadings, r \in {Utc(1, 0, 0, 0), Utc(12, 30, 0, 0)}}
               \cup {[kind |-> "dtpair", a |-> DT(z.date, Off(12, 0, 0, 0, 0 - 50400)), b |-> z] : z \in {z \in ZonedReadings : z.time.h = 2 /\ z.time.mi = 30}}
+\* both readings in the same named zone, one or two days apart around every switch-over (the offsets differ across it)
+DayBefore(y, m, d) == IF d > 1 THEN <<m, d - 1>> ELSE <<m - 1, DaysIn(y, m - 1)>>
+SameZonePairs == UNION {{[kind |-> "dtpair",
+                          a |-> DT(D(y, md[1], md[2]), OfSod(sa, 0, zn)),
+                          b |-> DT(D(y, DayBefore(y, md[1], md[2])[1], DayBefore(y, md[1], md[2])[2]), OfSod(sb, 0, zn))]
+                           : md \in SwitchDays(y), sa \in {1800, 12600, 43200}, sb \in {43200}, zn \in KnownZones}
+                        \cup {[kind |-> "dtpair",
+                          a |-> DT(D(y, DayBefore(y, md[1], md[2])[1], DayBefore(y, md[1], md[2])[2]), OfSod(sb, 0, zn)),
+                          b |-> DT(D(y, md[1], md[2]), OfSod(sa, 0, zn))]
+                           : md \in SwitchDays(y), sa \in {43200, 86399}, sb \in {0, 43200}, zn \in KnownZones}
+                        : y \in ZoneYears}
 OffsetReadings == {DT(d, t) : d \in {D(2021, 1, 1), D(2020, 12, 31), D(2020, 2, 29), D(2020, 3, 1), D(1, 1, 1), D(0 - 1, 12, 31), D(2300, 6, 1), D(1700, 3, 1)},
                      t \in {Utc(0, 0, 0, 0), Utc(23, 59, 59, 999999999), Off(0, 0, 0, 0, 50400), Off(23, 59, 59, 999999999, 0 - 53999), Off(10, 0, 0, 1, 3600),
                             Off(9, 0, 0, 0, 0), Off(11, 30, 0, 0, 5400), Off(12, 0, 0, 0, 0 - 1), Loc(10, 0, 0, 0), Zn(10, 0, 0, 0, "Asia/Kolkata"), Zn(10, 0, 0, 0, "Etc/GMT+5")}}
@@ -83,6 +94,6 @@ DurPairs == {[kind |-> "durpair", a |-> a, b |-> b] : a \in Dtds, b \in Dtds} \c
 
 VARIABLE c
 Emit(S) == c \in S /\ PrintT(<<"CASE", ToJson(c)>>)
-Init == Emit(Months) \/ Emit(Ctors) \/ Emit(DPairs) \/ Emit(ZonedPairs) \/ Emit(OffsetPairs) \/ Emit(FarPairs) \/ Emit(DtProps) \/ Emit(Ymbs) \/ Emit(DurPairs)
+Init == Emit(Months) \/ Emit(Ctors) \/ Emit(DPairs) \/ Emit(ZonedPairs) \/ Emit(SameZonePairs) \/ Emit(OffsetPairs) \/ Emit(FarPairs) \/ Emit(DtProps) \/ Emit(Ymbs) \/ Emit(DurPairs)
 Next == FALSE /\ c' = c
 =============================================================================
